@@ -209,6 +209,43 @@ func (s *gsched) waitFor(expect map[string]gateKey, d time.Duration) string {
 	}
 }
 
+// laterOn runs src on vm (mode "run" / "run-fresh") or as a fragment of eval, under a watchdog.
+func laterOn(vm *ugo.VM, eval *ugo.Eval, cfg abortCfg, src string) string {
+	ch := make(chan string, 1)
+	go func() {
+		defer func() {
+			if p := recover(); p != nil {
+				ch <- fmt.Sprint("PANIC ", p)
+			}
+		}()
+		if cfg.Mode != "eval" {
+			if cfg.Mode == "run" {
+				bc2, err := ugo.Compile([]byte(src), ugo.CompilerOptions{})
+				if err != nil {
+					ch <- "COMPILE " + err.Error()
+					return
+				}
+				vm.SetBytecode(bc2)
+			}
+			ret, err := vm.Run(ugo.Map{"cb": cbFuncFor(false)})
+			ch <- fmt.Sprint(ret, " ", errName(err))
+			return
+		}
+		ret, _, err := eval.Run(context.Background(), []byte(src))
+		ch <- fmt.Sprint(ret, " ", errName(err))
+	}()
+	select {
+	case x := <-ch:
+		return x
+	case <-time.After(5 * time.Second):
+		for i := 0; i < 2000; i++ {
+			vm.Abort()
+			time.Sleep(time.Millisecond)
+		}
+		return "did not end within 5 s"
+	}
+}
+
 // errName renders an error as name:message of the uGO error it carries.
 func errName(err error) string {
 	if err == nil {
@@ -679,7 +716,17 @@ func replayAbort(cfg abortCfg, sc schedCase, n int) replayResult {
 	} else {
 		// three later scripts: an error outside any try statement ends the run with that error, a try statement
 		// works, a plain script returns its value (each under a watchdog: a stale handler may loop)
-		later := func(src string) string {
+		later := func(src string) string { return laterOn(vm, eval, cfg, src) }
+		_ = later
+		laterOnNew := func(src string) string {
+			// a VM nobody ever aborted, using the same process-wide pool of child VMs
+			bc2, err := ugo.Compile([]byte(src), ugo.CompilerOptions{})
+			if err != nil {
+				return "COMPILE " + err.Error()
+			}
+			return laterOn(ugo.NewVM(bc2), nil, abortCfg{Mode: "run-fresh"}, src)
+		}
+		later = func(src string) string {
 			ch := make(chan string, 1)
 			go func() {
 				defer func() {
@@ -694,7 +741,7 @@ func replayAbort(cfg abortCfg, sc schedCase, n int) replayResult {
 						return
 					}
 					vm.SetBytecode(bc2)
-					ret, err := vm.Run(nil)
+					ret, err := vm.Run(ugo.Map{"cb": cbFuncFor(false)})
 					ch <- fmt.Sprint(ret, " ", errName(err))
 					return
 				}
@@ -716,10 +763,17 @@ func replayAbort(cfg abortCfg, sc schedCase, n int) replayResult {
 			a := later("fu1 := 1\nthrow error(\"probe\")")
 			b := later("fu2 := []\ntry { throw \"x\" } catch e { fu2 = append(fu2, 1) } finally { fu2 = append(fu2, 2) }\nreturn fu2")
 			c := later("return 42")
-			if a == "<nil> error:probe" && b == "[1, 2] <nil>" && c == "42 <nil>" {
+			// callbacks through pooled child VMs work again: on this VM and on one that was never aborted
+			cbSrc := "global cb\nfu3 := func() { return 5 }\nreturn [cb(fu3), cb(fu3)]"
+			d, e := "[5, 5] <nil>", "[5, 5] <nil>"
+			if cfg.Mode == "run" {
+				d = later(cbSrc)
+				e = laterOnNew(cbSrc)
+			}
+			if a == "<nil> error:probe" && b == "[1, 2] <nil>" && c == "42 <nil>" && d == "[5, 5] <nil>" && e == "[5, 5] <nil>" {
 				rr.FollowUp = "42 <nil>"
 			} else {
-				rr.FollowUp = fmt.Sprintf("throw outside try: %s (want <nil> error:probe); try statement: %s (want [1, 2] <nil>); plain: %s (want 42 <nil>)", a, b, c)
+				rr.FollowUp = fmt.Sprintf("throw outside try: %s (want <nil> error:probe); try statement: %s (want [1, 2] <nil>); plain: %s (want 42 <nil>); pooled callbacks: %s (want [5, 5] <nil>); pooled callbacks on a VM that was never aborted: %s (want [5, 5] <nil>)", a, b, c, d, e)
 			}
 		}
 	}
